@@ -14,6 +14,7 @@
 import Saltpack.Model.Decrypt
 import Saltpack.Model.Signcrypt
 import Saltpack.Model.Sign
+import Saltpack.Proofs.Digits
 
 namespace Saltpack.Proofs
 open Saltpack
@@ -34,6 +35,192 @@ inductive Chain {β : Type} (acc : β → Nat → Option Bytes) (fin : β → Bo
 def Complete {β : Type} (acc : β → Nat → Option Bytes) (fin : β → Bool) (n : Nat) (bs : List β) (out : Bytes) : Prop :=
   Chain acc fin n bs out ∧ ∃ b, bs.getLast? = some b ∧ fin b = true
 
+
+/-! ## the generic chunk-reader run
+
+  All three receivers have the same shape: a per-packet step (`processBlock`
+  followed by `checkChunkState`) and a final-flag function.  The stream logic is
+  proved once for `grun` and transported along `run = grun`. -/
+section generic
+variable {β : Type}
+
+/-- acceptance test belonging to a step function -/
+def gacc (step : β → Nat → Except Err Bytes) (b : β) (n : Nat) : Option Bytes :=
+  match step b n with
+  | .ok c => some c
+  | .error _ => none
+
+/-- the common shape of `Decrypt.run`, `Signcrypt.run`, `Sign.run` -/
+def grun (step : β → Nat → Except Err Bytes) (fin : β → Bool) :
+    List (Option β) → Tail → Nat → Released
+  | [], tail, _ =>
+    match tail with
+    | .eof => ⟨[], some .unexpectedEOF⟩
+    | .err e => ⟨[], some e⟩
+  | none :: _, _, _ => ⟨[], some .decodeError⟩
+  | some b :: rest, tail, n =>
+    match step b n with
+    | .error e => ⟨[], some e⟩
+    | .ok chunk =>
+      if fin b then ⟨chunk, Decrypt.endOfStream rest tail⟩
+      else
+        let r := grun step fin rest tail (n + 1)
+        ⟨chunk ++ r.bytes, r.err⟩
+
+theorem endOfStream_none (rest : List (Option β)) (tail : Tail) :
+    Decrypt.endOfStream rest tail = none ↔ rest = [] ∧ tail = .eof := by
+  cases rest with
+  | nil => cases tail <;> simp [Decrypt.endOfStream]
+  | cons a t => simp [Decrypt.endOfStream]
+
+theorem Chain.out_of_nil {acc : β → Nat → Option Bytes} {fin : β → Bool} {n : Nat} {out : Bytes}
+    (h : Chain acc fin n [] out) : out = [] := by
+  cases h; rfl
+
+theorem grun_nil (step : β → Nat → Except Err Bytes) (fin : β → Bool) (tail : Tail) (n : Nat) :
+    (grun step fin [] tail n).bytes = [] ∧ (grun step fin [] tail n).err ≠ none := by
+  cases tail <;> simp [grun]
+
+theorem grun_none (step : β → Nat → Except Err Bytes) (fin : β → Bool) (rest : List (Option β))
+    (tail : Tail) (n : Nat) :
+    grun step fin (none :: rest) tail n = ⟨[], some .decodeError⟩ := by
+  simp [grun]
+
+theorem grun_error (step : β → Nat → Except Err Bytes) (fin : β → Bool) (b : β)
+    (rest : List (Option β)) (tail : Tail) (n : Nat) (e : Err) (hs : step b n = .error e) :
+    grun step fin (some b :: rest) tail n = ⟨[], some e⟩ := by
+  simp [grun, hs]
+
+theorem grun_final (step : β → Nat → Except Err Bytes) (fin : β → Bool) (b : β)
+    (rest : List (Option β)) (tail : Tail) (n : Nat) (c : Bytes) (hs : step b n = .ok c)
+    (hf : fin b = true) :
+    grun step fin (some b :: rest) tail n = ⟨c, Decrypt.endOfStream rest tail⟩ := by
+  simp [grun, hs, hf]
+
+theorem grun_more (step : β → Nat → Except Err Bytes) (fin : β → Bool) (b : β)
+    (rest : List (Option β)) (tail : Tail) (n : Nat) (c : Bytes) (hs : step b n = .ok c)
+    (hf : fin b = false) :
+    grun step fin (some b :: rest) tail n =
+      ⟨c ++ (grun step fin rest tail (n + 1)).bytes, (grun step fin rest tail (n + 1)).err⟩ := by
+  simp [grun, hs, hf]
+
+theorem gacc_ok {step : β → Nat → Except Err Bytes} {b : β} {n : Nat} {c : Bytes}
+    (hs : step b n = .ok c) : gacc step b n = some c := by
+  simp [gacc, hs]
+
+theorem gacc_some {step : β → Nat → Except Err Bytes} {b : β} {n : Nat} {c : Bytes}
+    (h : gacc step b n = some c) : step b n = .ok c := by
+  unfold gacc at h
+  split at h
+  · rename_i c' hc; simp at h; rw [hc, h]
+  · simp at h
+
+/-- Level A, prefix, generic form -/
+theorem grun_prefix (step : β → Nat → Except Err Bytes) (fin : β → Bool)
+    (items : List (Option β)) (tail : Tail) (n : Nat) :
+    ∃ bs : List β, (bs.map some) <+: items ∧
+      Chain (gacc step) fin n bs (grun step fin items tail n).bytes := by
+  induction items generalizing n with
+  | nil =>
+    refine ⟨[], List.nil_prefix, ?_⟩
+    rw [(grun_nil step fin tail n).1]
+    exact Chain.nil n
+  | cons it rest ih =>
+    cases it with
+    | none =>
+      refine ⟨[], List.nil_prefix, ?_⟩
+      rw [grun_none]
+      exact Chain.nil n
+    | some b =>
+      cases hs : step b n with
+      | error e =>
+        refine ⟨[], List.nil_prefix, ?_⟩
+        rw [grun_error step fin b rest tail n e hs]
+        exact Chain.nil n
+      | ok c =>
+        cases hf : fin b with
+        | true =>
+          refine ⟨[b], ?_, ?_⟩
+          · exact ⟨rest, rfl⟩
+          · rw [grun_final step fin b rest tail n c hs hf]
+            exact Chain.last n b c (gacc_ok hs)
+        | false =>
+          obtain ⟨bs', hp, hc⟩ := ih (n + 1)
+          rw [grun_more step fin b rest tail n c hs hf]
+          cases hb : bs' with
+          | nil =>
+            subst hb
+            refine ⟨[b], ⟨rest, rfl⟩, ?_⟩
+            show Chain (gacc step) fin n [b] (c ++ (grun step fin rest tail (n + 1)).bytes)
+            rw [Chain.out_of_nil hc, List.append_nil]
+            exact Chain.last n b c (gacc_ok hs)
+          | cons b' t =>
+            refine ⟨b :: bs', ?_, ?_⟩
+            · obtain ⟨u, hu⟩ := hp
+              exact ⟨u, by simp [← hu]⟩
+            · exact Chain.cons n b c bs' _ (gacc_ok hs) hf (by simp [hb]) hc
+
+/-- a complete chain over a cleanly ending input runs without error and
+    releases exactly the chain's output -/
+theorem grun_of_chain (step : β → Nat → Except Err Bytes) (fin : β → Bool)
+    (n : Nat) (bs : List β) (out : Bytes) (hc : Chain (gacc step) fin n bs out)
+    (hl : ∃ b, bs.getLast? = some b ∧ fin b = true) :
+    grun step fin (bs.map some) .eof n = ⟨out, none⟩ := by
+  induction hc with
+  | nil n => obtain ⟨b, hb, _⟩ := hl; simp at hb
+  | last n b c ha =>
+    obtain ⟨b', hb, hf⟩ := hl
+    simp at hb; subst hb
+    show grun step fin [some b] .eof n = ⟨c, none⟩
+    rw [grun_final step fin b [] .eof n c (gacc_some ha) hf]
+    simp [Decrypt.endOfStream]
+  | cons n b c bs r ha hf hne _ ih =>
+    have hl' : ∃ b, bs.getLast? = some b ∧ fin b = true := by
+      obtain ⟨b', hb, hf'⟩ := hl
+      refine ⟨b', ?_, hf'⟩
+      rwa [List.getLast?_cons_of_ne_nil hne] at hb
+    have := ih hl'
+    show grun step fin (some b :: bs.map some) .eof n = ⟨c ++ r, none⟩
+    rw [grun_more step fin b _ .eof n c (gacc_some ha) hf, this]
+
+/-- Level A, completeness, generic form -/
+theorem grun_ok_iff (step : β → Nat → Except Err Bytes) (fin : β → Bool)
+    (items : List (Option β)) (tail : Tail) (n : Nat) :
+    (grun step fin items tail n).err = none ↔
+      ∃ bs : List β, items = bs.map some ∧ tail = .eof ∧
+        Complete (gacc step) fin n bs (grun step fin items tail n).bytes := by
+  constructor
+  · induction items generalizing n with
+    | nil => intro h; exact absurd h (grun_nil step fin tail n).2
+    | cons it rest ih =>
+      cases it with
+      | none => intro h; rw [grun_none] at h; simp at h
+      | some b =>
+        cases hs : step b n with
+        | error e => intro h; rw [grun_error step fin b rest tail n e hs] at h; simp at h
+        | ok c =>
+          cases hf : fin b with
+          | true =>
+            rw [grun_final step fin b rest tail n c hs hf]
+            intro h
+            obtain ⟨h1, h2⟩ := (endOfStream_none rest tail).1 h
+            subst h1
+            exact ⟨[b], rfl, h2, Chain.last n b c (gacc_ok hs), b, rfl, hf⟩
+          | false =>
+            rw [grun_more step fin b rest tail n c hs hf]
+            intro h
+            obtain ⟨bs', h1, h2, h3, b', h4, h5⟩ := ih (n + 1) h
+            have hne : bs' ≠ [] := by
+              intro h0; rw [h0] at h4; simp at h4
+            refine ⟨b :: bs', by rw [h1]; rfl, h2, ?_, b', ?_, h5⟩
+            · exact Chain.cons n b c bs' _ (gacc_ok hs) hf hne h3
+            · rw [List.getLast?_cons_of_ne_nil hne]; exact h4
+  · rintro ⟨bs, h1, h2, h3, h4⟩
+    subst h1 h2
+    rw [grun_of_chain step fin n bs _ h3 h4]
+
+end generic
+
 /-! ## encryption -/
 namespace Dec
 variable (P : Prims)
@@ -47,12 +234,60 @@ def accept (s : Decrypt.State) (b : EncBlock) (seqno : Nat) : Option Bytes :=
     | .error _ => none
   | .error _ => none
 
+/-- `processBlock` followed by `checkChunkState`, as one step -/
+def step (s : Decrypt.State) (b : EncBlock) (seqno : Nat) : Except Err Bytes :=
+  match Decrypt.processBlock P s b (Decrypt.blockFinal s.version b) seqno with
+  | .ok chunk =>
+    match checkChunkState s.version chunk.length (seqno - 1) (Decrypt.blockFinal s.version b) with
+    | .ok () => .ok chunk
+    | .error e => .error e
+  | .error e => .error e
+
+theorem accept_eq (s : Decrypt.State) : accept P s = gacc (step P s) := by
+  funext b n
+  unfold accept gacc step
+  split
+  · split <;> simp_all
+  · rfl
+
+theorem run_eq (s : Decrypt.State) (items : List (Option EncBlock)) (tail : Tail) (n : Nat) :
+    Decrypt.run P s items tail n = grun (step P s) (Decrypt.blockFinal s.version) items tail n := by
+  induction items generalizing n with
+  | nil => cases tail <;> rfl
+  | cons it rest ih =>
+    cases it with
+    | none => rfl
+    | some b =>
+      cases hpb : Decrypt.processBlock P s b (Decrypt.blockFinal s.version b) n with
+      | error e =>
+        have hs : step P s b n = .error e := by simp [step, hpb]
+        rw [grun_error _ _ b rest tail n e hs]
+        simp [Decrypt.run, hpb]
+      | ok chunk =>
+        cases hck : checkChunkState s.version chunk.length (n - 1) (Decrypt.blockFinal s.version b) with
+        | error e =>
+          have hs : step P s b n = .error e := by simp [step, hpb, hck]
+          rw [grun_error _ _ b rest tail n e hs]
+          simp [Decrypt.run, hpb, hck]
+        | ok u =>
+          have hs : step P s b n = .ok chunk := by simp [step, hpb, hck]
+          cases hf : (Decrypt.blockFinal s.version b) with
+          | true =>
+            rw [grun_final _ _ b rest tail n _ hs hf]
+            simp only [Decrypt.run, hpb, hck]
+            simp [hf]
+          | false =>
+            rw [grun_more _ _ b rest tail n _ hs hf, ← ih (n + 1)]
+            simp only [Decrypt.run, hpb, hck]
+            simp [hf]
+
 /-- Level A, prefix: what is released is the in-order concatenation of the
     chunks of an accepted prefix of the packets. -/
 theorem run_prefix (s : Decrypt.State) (items : List (Option EncBlock)) (tail : Tail) (n : Nat) :
     ∃ bs : List EncBlock, (bs.map some) <+: items ∧
       Chain (accept P s) (Decrypt.blockFinal s.version) n bs (Decrypt.run P s items tail n).bytes := by
-  sorry
+  rw [accept_eq, run_eq]
+  exact grun_prefix _ _ items tail n
 
 /-- Level A, completeness: the run ends without error iff the packets are
     exactly a complete message and the input ends cleanly right after it. -/
@@ -60,7 +295,8 @@ theorem run_ok_iff (s : Decrypt.State) (items : List (Option EncBlock)) (tail : 
     (Decrypt.run P s items tail n).err = none ↔
       ∃ bs : List EncBlock, items = bs.map some ∧ tail = .eof ∧
         Complete (accept P s) (Decrypt.blockFinal s.version) n bs (Decrypt.run P s items tail n).bytes := by
-  sorry
+  rw [accept_eq, run_eq]
+  exact grun_ok_iff _ _ items tail n
 
 /-- Level B: an accepted packet carries, at the receiver's position, the HMAC
     under the receiver's MAC key of the hash of
@@ -73,9 +309,44 @@ theorem accept_binds (s : Decrypt.State) (b : EncBlock) (seqno : Nat) (c : Bytes
       b.auths[s.position]? = some (payloadAuthenticator P s.macKey ph) ∧
       P.sbOpen s.payloadKey (Nonce.chunkSecretBox (seqno - 1)) b.ct = some c ∧
       blockNumberOK (seqno - 1) = true := by
-  sorry
+  unfold accept at h
+  split at h
+  · rename_i chunk hpb
+    split at h
+    · simp only [Option.some.injEq] at h
+      subst h
+      unfold Decrypt.processBlock at hpb
+      simp only [] at hpb
+      split at hpb
+      · cases hpb
+      · rename_i hbn
+        split at hpb
+        · cases hpb
+        · rename_i ph hph
+          split at hpb
+          · cases hpb
+          · rename_i a ha
+            split at hpb
+            · cases hpb
+            · rename_i hne
+              split at hpb
+              · cases hpb
+              · rename_i pt hpt
+                cases hpb
+                refine ⟨ph, hph, ?_, hpt, ?_⟩
+                · have : a = payloadAuthenticator P s.macKey ph := by
+                    simpa using hne
+                  rw [ha, this]
+                · simpa using hbn
+    · cases h
+  · cases h
 
 end Dec
+
+theorem finalByte_inj {f f' : Bool} (h : finalByte f = finalByte f') : f = f' := by
+  cases f <;> cases f' <;> first | rfl | (exact absurd h (by decide))
+
+theorem finalByte_length (f : Bool) : (finalByte f).length = 1 := rfl
 
 /-- Level B, unique decomposition (V2 MAC input): equal hashed strings with
     64-byte header hashes and 24-byte nonces have equal fields. -/
@@ -83,31 +354,66 @@ theorem macInput_inj_v2 (hh hh' n n' ct ct' : Bytes) (f f' : Bool)
     (h1 : hh.length = 64) (h2 : hh'.length = 64) (h3 : n.length = 24) (h4 : n'.length = 24)
     (h : hh ++ n ++ finalByte f ++ ct = hh' ++ n' ++ finalByte f' ++ ct') :
     hh = hh' ∧ n = n' ∧ f = f' ∧ ct = ct' := by
-  sorry
+  simp only [List.append_assoc] at h
+  obtain ⟨e1, h⟩ := List.append_inj h (by omega)
+  obtain ⟨e2, h⟩ := List.append_inj h (by omega)
+  obtain ⟨e3, e4⟩ := List.append_inj h (by simp [finalByte])
+  exact ⟨e1, e2, finalByte_inj e3, e4⟩
 
 theorem macInput_inj_v1 (hh hh' n n' ct ct' : Bytes)
     (h1 : hh.length = 64) (h2 : hh'.length = 64) (h3 : n.length = 24) (h4 : n'.length = 24)
     (h : hh ++ n ++ ct = hh' ++ n' ++ ct') :
     hh = hh' ∧ n = n' ∧ ct = ct' := by
-  sorry
+  simp only [List.append_assoc] at h
+  obtain ⟨e1, h⟩ := List.append_inj h (by omega)
+  obtain ⟨e2, e3⟩ := List.append_inj h (by omega)
+  exact ⟨e1, e2, e3⟩
+
+theorem be64_length (i : Nat) : (be64 i).length = 8 := by
+  unfold be64; exact bytesOfNat_length 8 _
+
+theorem be64_inj (i j : Nat) (hi : i < 2 ^ 64) (hj : j < 2 ^ 64) (h : be64 i = be64 j) : i = j := by
+  have h' := congrArg natOfBytes h
+  unfold be64 at h'
+  rw [natOfBytes_bytesOfNat, natOfBytes_bytesOfNat] at h'
+  have e : (256 : Nat) ^ 8 = 2 ^ 64 := by decide
+  rw [e, Nat.mod_mod, Nat.mod_mod, Nat.mod_eq_of_lt hi, Nat.mod_eq_of_lt hj] at h'
+  exact h'
 
 /-- the chunk nonce determines the chunk number (below the overflow guard) -/
 theorem chunkSecretBox_inj (i j : Nat) (hi : i < 2 ^ 64) (hj : j < 2 ^ 64)
     (h : Nonce.chunkSecretBox i = Nonce.chunkSecretBox j) : i = j := by
-  sorry
+  unfold Nonce.chunkSecretBox at h
+  exact be64_inj i j hi hj (List.append_cancel_left h)
 
-theorem be64_inj (i j : Nat) (hi : i < 2 ^ 64) (hj : j < 2 ^ 64) (h : be64 i = be64 j) : i = j := by
-  sorry
+set_option maxRecDepth 8192 in
+theorem setLowBit_ne_nat : ∀ n : Nat, n < 256 →
+    Nonce.setLowBit (UInt8.ofNat n) true ≠ Nonce.setLowBit (UInt8.ofNat n) false := by
+  decide
 
-theorem be64_length (i : Nat) : (be64 i).length = 8 := by
-  sorry
+theorem setLowBit_ne (x : UInt8) : Nonce.setLowBit x true ≠ Nonce.setLowBit x false := by
+  have := setLowBit_ne_nat x.toNat (UInt8.toNat_lt x)
+  rwa [UInt8.ofNat_toNat] at this
+
+theorem setLowBit_inj (x : UInt8) {f f' : Bool} (h : Nonce.setLowBit x f = Nonce.setLowBit x f') :
+    f = f' := by
+  cases f <;> cases f'
+  · rfl
+  · exact absurd h.symm (setLowBit_ne x)
+  · exact absurd h (setLowBit_ne x)
+  · rfl
 
 /-- the signcryption nonce determines final flag and chunk number, for a fixed
     64-byte header hash -/
 theorem chunkSigncryption_inj (hh : Bytes) (hl : hh.length = 64) (f f' : Bool) (i j : Nat)
     (hi : i < 2 ^ 64) (hj : j < 2 ^ 64)
     (h : Nonce.chunkSigncryption hh f i = Nonce.chunkSigncryption hh f' j) : f = f' ∧ i = j := by
-  sorry
+  have _ := hl
+  unfold Nonce.chunkSigncryption Nonce.hashFlagCounter at h
+  obtain ⟨e1, e2⟩ := List.append_inj h (by simp)
+  have e3 := List.append_cancel_left e1
+  simp only [List.cons.injEq, and_true] at e3
+  exact ⟨setLowBit_inj _ e3, be64_inj i j hi hj e2⟩
 
 /-! ## signcryption -/
 namespace Sc
@@ -121,16 +427,64 @@ def accept (s : Signcrypt.State) (b : SigncryptBlock) (seqno : Nat) : Option Byt
     | .error _ => none
   | .error _ => none
 
+def step (s : Signcrypt.State) (b : SigncryptBlock) (seqno : Nat) : Except Err Bytes :=
+  match Signcrypt.processBlock P s b seqno with
+  | .ok chunk =>
+    match checkChunkState v2 chunk.length (seqno - 1) b.final with
+    | .ok () => .ok chunk
+    | .error e => .error e
+  | .error e => .error e
+
+theorem accept_eq (s : Signcrypt.State) : accept P s = gacc (step P s) := by
+  funext b n
+  unfold accept gacc step
+  split
+  · split <;> simp_all
+  · rfl
+
+theorem run_eq (s : Signcrypt.State) (items : List (Option SigncryptBlock)) (tail : Tail) (n : Nat) :
+    Signcrypt.run P s items tail n = grun (step P s) (·.final) items tail n := by
+  induction items generalizing n with
+  | nil => cases tail <;> rfl
+  | cons it rest ih =>
+    cases it with
+    | none => rfl
+    | some b =>
+      cases hpb : Signcrypt.processBlock P s b n with
+      | error e =>
+        have hs : step P s b n = .error e := by simp [step, hpb]
+        rw [grun_error _ _ b rest tail n e hs]
+        simp [Signcrypt.run, hpb]
+      | ok chunk =>
+        cases hck : checkChunkState v2 chunk.length (n - 1) b.final with
+        | error e =>
+          have hs : step P s b n = .error e := by simp [step, hpb, hck]
+          rw [grun_error _ _ b rest tail n e hs]
+          simp [Signcrypt.run, hpb, hck]
+        | ok u =>
+          have hs : step P s b n = .ok chunk := by simp [step, hpb, hck]
+          cases hf : b.final with
+          | true =>
+            rw [grun_final _ _ b rest tail n _ hs hf]
+            simp only [Signcrypt.run, hpb, hck]
+            simp [hf]
+          | false =>
+            rw [grun_more _ _ b rest tail n _ hs hf, ← ih (n + 1)]
+            simp only [Signcrypt.run, hpb, hck]
+            simp [hf]
+
 theorem run_prefix (s : Signcrypt.State) (items : List (Option SigncryptBlock)) (tail : Tail) (n : Nat) :
     ∃ bs : List SigncryptBlock, (bs.map some) <+: items ∧
       Chain (accept P s) (·.final) n bs (Signcrypt.run P s items tail n).bytes := by
-  sorry
+  rw [accept_eq, run_eq]
+  exact grun_prefix _ _ items tail n
 
 theorem run_ok_iff (s : Signcrypt.State) (items : List (Option SigncryptBlock)) (tail : Tail) (n : Nat) :
     (Signcrypt.run P s items tail n).err = none ↔
       ∃ bs : List SigncryptBlock, items = bs.map some ∧ tail = .eof ∧
         Complete (accept P s) (·.final) n bs (Signcrypt.run P s items tail n).bytes := by
-  sorry
+  rw [accept_eq, run_eq]
+  exact grun_ok_iff _ _ items tail n
 
 /-- Level B: an accepted packet of a *named* sender opens under the payload key
     and the (header hash, final flag, packet number) nonce to signature ‖ chunk,
@@ -143,12 +497,51 @@ theorem accept_binds (s : Signcrypt.State) (spk : Bytes) (hs : s.sender = some s
       P.verify spk (signcryptionSignatureInput P s.headerHash
           (Nonce.chunkSigncryption s.headerHash b.final (seqno - 1)) b.final c) sig = true ∧
       blockNumberOK (seqno - 1) = true := by
-  sorry
+  unfold accept at h
+  split at h
+  · rename_i chunk hpb
+    split at h
+    · simp only [Option.some.injEq] at h
+      subst h
+      unfold Signcrypt.processBlock at hpb
+      simp only [] at hpb
+      split at hpb
+      · cases hpb
+      · rename_i hbn
+        split at hpb
+        · cases hpb
+        · rename_i att hatt
+          split at hpb
+          · cases hpb
+          · rename_i hlen
+            rw [hs] at hpb
+            simp only [] at hpb
+            split at hpb
+            · rename_i hv
+              cases hpb
+              refine ⟨att.take 64, ?_, ?_, hv, ?_⟩
+              · rw [List.length_take]; omega
+              · rw [List.take_append_drop]; exact hatt
+              · simpa using hbn
+            · cases hpb
+    · cases h
+  · cases h
 
 /-- empty chunks are accepted only as the sole, final chunk -/
 theorem accept_empty (s : Signcrypt.State) (b : SigncryptBlock) (seqno : Nat)
     (h : accept P s b seqno = some []) : seqno - 1 = 0 ∧ b.final = true := by
-  sorry
+  unfold accept at h
+  split at h
+  · rename_i chunk hpb
+    split at h
+    · rename_i hck
+      simp only [Option.some.injEq] at h
+      subst h
+      unfold checkChunkState at hck
+      simp [v2] at hck
+      exact hck
+    · cases h
+  · cases h
 
 end Sc
 
@@ -158,7 +551,14 @@ theorem signcryptInput_inj (P : Prims) (hP : ∀ m, (P.hash m).length = 64)
     (h1 : hh.length = 64) (h2 : hh'.length = 64) (h3 : n.length = 24) (h4 : n'.length = 24)
     (h : signcryptionSignatureInput P hh n f c = signcryptionSignatureInput P hh' n' f' c') :
     hh = hh' ∧ n = n' ∧ f = f' ∧ P.hash c = P.hash c' := by
-  sorry
+  have _ := hP
+  unfold signcryptionSignatureInput at h
+  simp only [List.append_assoc] at h
+  have h := List.append_cancel_left h
+  obtain ⟨e1, h⟩ := List.append_inj h (by omega)
+  obtain ⟨e2, h⟩ := List.append_inj h (by omega)
+  obtain ⟨e3, e4⟩ := List.append_inj h (by simp [finalByte])
+  exact ⟨e1, e2, finalByte_inj e3, e4⟩
 
 /-! ## attached signatures -/
 namespace Ver
@@ -172,16 +572,64 @@ def accept (s : Sign.State) (b : SigBlock) (seqno : Nat) : Option Bytes :=
     | .error _ => none
   | .error _ => none
 
+def step (s : Sign.State) (b : SigBlock) (seqno : Nat) : Except Err Bytes :=
+  match Sign.processBlock P s b (Sign.blockFinal s.version b) seqno with
+  | .ok () =>
+    match checkChunkState s.version b.chunk.length (seqno - 1) (Sign.blockFinal s.version b) with
+    | .ok () => .ok b.chunk
+    | .error e => .error e
+  | .error e => .error e
+
+theorem accept_eq (s : Sign.State) : accept P s = gacc (step P s) := by
+  funext b n
+  unfold accept gacc step
+  split
+  · split <;> simp_all
+  · rfl
+
+theorem run_eq (s : Sign.State) (items : List (Option SigBlock)) (tail : Tail) (n : Nat) :
+    Sign.run P s items tail n = grun (step P s) (Sign.blockFinal s.version) items tail n := by
+  induction items generalizing n with
+  | nil => cases tail <;> rfl
+  | cons it rest ih =>
+    cases it with
+    | none => rfl
+    | some b =>
+      cases hpb : Sign.processBlock P s b (Sign.blockFinal s.version b) n with
+      | error e =>
+        have hs : step P s b n = .error e := by simp [step, hpb]
+        rw [grun_error _ _ b rest tail n e hs]
+        simp [Sign.run, hpb]
+      | ok chunk =>
+        cases hck : checkChunkState s.version b.chunk.length (n - 1) (Sign.blockFinal s.version b) with
+        | error e =>
+          have hs : step P s b n = .error e := by simp [step, hpb, hck]
+          rw [grun_error _ _ b rest tail n e hs]
+          simp [Sign.run, hpb, hck]
+        | ok u =>
+          have hs : step P s b n = .ok b.chunk := by simp [step, hpb, hck]
+          cases hf : (Sign.blockFinal s.version b) with
+          | true =>
+            rw [grun_final _ _ b rest tail n _ hs hf]
+            simp only [Sign.run, hpb, hck]
+            simp [hf]
+          | false =>
+            rw [grun_more _ _ b rest tail n _ hs hf, ← ih (n + 1)]
+            simp only [Sign.run, hpb, hck]
+            simp [hf]
+
 theorem run_prefix (s : Sign.State) (items : List (Option SigBlock)) (tail : Tail) (n : Nat) :
     ∃ bs : List SigBlock, (bs.map some) <+: items ∧
       Chain (accept P s) (Sign.blockFinal s.version) n bs (Sign.run P s items tail n).bytes := by
-  sorry
+  rw [accept_eq, run_eq]
+  exact grun_prefix _ _ items tail n
 
 theorem run_ok_iff (s : Sign.State) (items : List (Option SigBlock)) (tail : Tail) (n : Nat) :
     (Sign.run P s items tail n).err = none ↔
       ∃ bs : List SigBlock, items = bs.map some ∧ tail = .eof ∧
         Complete (accept P s) (Sign.blockFinal s.version) n bs (Sign.run P s items tail n).bytes := by
-  sorry
+  rw [accept_eq, run_eq]
+  exact grun_ok_iff _ _ items tail n
 
 /-- Level B: an accepted packet's signature verifies, under the looked-up key,
     on domain ‖ SHA-512(header hash ‖ packet number ‖ [final byte] ‖ chunk), and
@@ -192,7 +640,22 @@ theorem accept_binds (s : Sign.State) (b : SigBlock) (seqno : Nat) (c : Bytes)
     ∃ inp, attachedSignatureInput P s.version s.headerHash b.chunk (seqno - 1)
               (Sign.blockFinal s.version b) = .ok inp ∧
       P.verify s.publicKey inp b.sig = true := by
-  sorry
+  unfold accept at h
+  split at h
+  · rename_i hpb
+    split at h
+    · simp only [Option.some.injEq] at h
+      refine ⟨h.symm, ?_⟩
+      unfold Sign.processBlock at hpb
+      split at hpb
+      · cases hpb
+      · rename_i inp hinp
+        split at hpb
+        · rename_i hv
+          exact ⟨inp, hinp, hv⟩
+        · cases hpb
+    · cases h
+  · cases h
 
 end Ver
 
@@ -201,13 +664,20 @@ theorem attachedInput_inj_v2 (hh hh' c c' : Bytes) (i j : Nat) (f f' : Bool)
     (h1 : hh.length = 64) (h2 : hh'.length = 64) (hi : i < 2 ^ 64) (hj : j < 2 ^ 64)
     (h : hh ++ be64 i ++ finalByte f ++ c = hh' ++ be64 j ++ finalByte f' ++ c') :
     hh = hh' ∧ i = j ∧ f = f' ∧ c = c' := by
-  sorry
+  simp only [List.append_assoc] at h
+  obtain ⟨e1, h⟩ := List.append_inj h (by omega)
+  obtain ⟨e2, h⟩ := List.append_inj h (by rw [be64_length, be64_length])
+  obtain ⟨e3, e4⟩ := List.append_inj h (by simp [finalByte])
+  exact ⟨e1, be64_inj i j hi hj e2, finalByte_inj e3, e4⟩
 
 theorem attachedInput_inj_v1 (hh hh' c c' : Bytes) (i j : Nat)
     (h1 : hh.length = 64) (h2 : hh'.length = 64) (hi : i < 2 ^ 64) (hj : j < 2 ^ 64)
     (h : hh ++ be64 i ++ c = hh' ++ be64 j ++ c') :
     hh = hh' ∧ i = j ∧ c = c' := by
-  sorry
+  simp only [List.append_assoc] at h
+  obtain ⟨e1, h⟩ := List.append_inj h (by omega)
+  obtain ⟨e2, e3⟩ := List.append_inj h (by rw [be64_length, be64_length])
+  exact ⟨e1, be64_inj i j hi hj e2, e3⟩
 
 /-- the three signature domain strings are pairwise distinct, of equal length,
     hence none is a prefix of another: inputs of different modes never coincide -/
@@ -218,6 +688,6 @@ theorem domains_separate :
     ¬ (Gen.c_sp_signatureDetachedString <+: Gen.c_sp_signatureEncryptedString) ∧
     ¬ (Gen.c_sp_signatureEncryptedString <+: Gen.c_sp_signatureAttachedString) ∧
     ¬ (Gen.c_sp_signatureEncryptedString <+: Gen.c_sp_signatureDetachedString) := by
-  sorry
+  decide
 
 end Saltpack.Proofs
